@@ -311,7 +311,6 @@ impl<S: Read> Master<S> {
     }
 
     fn read_file(&self, file: &PathBuf, index: &mut u64, process: &mut dyn Process) -> Result<()> {
-        assert!(file.exists(), "File {file:?} not exists");
         if file.is_dir() {
             for entry in read_dir(file)? {
                 let path = entry?.path();
